@@ -77,6 +77,7 @@ type Sess struct {
 	ZeroConfigs bool
 	// called before every step of a simulated process (foreign edits between calls)
 	BeforeStep func(o Op)
+	Mode vkit.Mode // mode of the simulated process that is running
 	// Sub: the snapshot directory is Root/Sub and does not exist until a call creates it
 	// (may contain `%`); "" = Root itself, which exists
 	Sub string
@@ -212,6 +213,27 @@ func (s *Sess) NewProcess(m vkit.Mode, noColor bool) {
 	s.ord = map[string]int{}
 	s.touch = map[*vkit.T]map[string]bool{}
 	s.cfgs = nil
+	s.Mode = m
+}
+
+// ReportOnlyClean calls snaps.Clean in the middle of the simulated process when the mode
+// lets it report only (it may not delete and no sorting is asked for): a TestMain that runs
+// the tests twice, or that snapshots through a handle of its own before and after. Clean's
+// output is discarded. It reports whether Clean was called and whether it changed anything
+// under the session's root.
+func (s *Sess) ReportOnlyClean() (called bool, changed []string) {
+	if !s.Mode.CI && (s.Mode.UpdateVar == "true" || s.Mode.UpdateVar == "clean") {
+		return false, nil
+	}
+	vkit.Backdate(s.Root)
+	d0 := vkit.TakeDigest(s.Root)
+	old := os.Stdout
+	if null, err := os.OpenFile(os.DevNull, os.O_WRONLY, 0); err == nil {
+		os.Stdout = null
+		defer func() { os.Stdout = old; null.Close() }()
+	}
+	snaps.Clean(nil)
+	return true, d0.Diff(vkit.TakeDigest(s.Root), false)
 }
 
 // EndExec ends one test execution: runs the cleanups and resets the model ordinals.
